@@ -260,11 +260,9 @@ impl<'a> TimeZoneRef<'a> {
                         } else if local_leap_time >= transition_end
                             && local_leap_time <= transition_start
                         {
-                            if prev.ut_offset < after_ltt.ut_offset {
-                                return Ok(crate::MappedLocalTime::Ambiguous(prev, after_ltt));
-                            } else {
-                                return Ok(crate::MappedLocalTime::Ambiguous(after_ltt, prev));
-                            }
+                            // `Ambiguous` is `(earliest, latest)`: the first occurrence of
+                            // this local time is the one before the transition.
+                            return Ok(crate::MappedLocalTime::Ambiguous(prev, after_ltt));
                         }
                     }
                     Ordering::Equal => {
